@@ -43,6 +43,35 @@ class HostileStr(Exception):
         raise RuntimeError('hostile __repr__')
 
 
+class Unhashable(Exception):
+    """Defines __eq__ by value, so instances are not hashable (a dataclass
+    style exception)."""
+
+    def __init__(self, msg):
+        Exception.__init__(self, msg)
+        self.msg = msg
+
+    def __eq__(self, other):
+        return isinstance(other, Unhashable) and other.msg == self.msg
+
+
+class AlwaysEqual(Exception):
+    """Compares equal to everything."""
+
+    def __eq__(self, other):
+        return True
+
+    def __hash__(self):
+        return 1
+
+
+class FalsyError(Exception):
+    """An exception object that is false (len() == 0)."""
+
+    def __len__(self):
+        return 0
+
+
 class CustomBase(Exception):
     pass
 
@@ -64,6 +93,20 @@ def make_exc(name, msg=None):
         return HostileStr(msg)
     if name == 'CustomDerived':
         return CustomDerived(msg)
+    if name == 'Unhashable':
+        return Unhashable(msg)
+    if name == 'UnhashableChained':
+        try:
+            try:
+                raise Unhashable('inner ' + msg)
+            except Unhashable as e:
+                raise Unhashable('outer ' + msg) from e
+        except Unhashable as e2:
+            return e2
+    if name == 'AlwaysEqual':
+        return AlwaysEqual(msg)
+    if name == 'FalsyError':
+        return FalsyError(msg)
     if name == 'BoomError':
         return BoomError(msg)
     if name == 'Chained':
